@@ -1,6 +1,7 @@
 """Driver shared by C09 / C10 / C16: runs the in-flight pipelines and reports the findings attributed to one property."""
 import time
 
+import conn
 import inflight
 from common import Scratch, Verdict, log, write_evidence
 
@@ -20,18 +21,33 @@ def run_inflight(prop, tier):
         if others:
             log("NOTE %d finding(s) of this run belong to other properties (%s) and are reported by their checks" % (
                 others, ",".join(sorted({p for f in seq["findings"] for p in f["props"]} - {prop}))))
+        connres = None
+        if prop == "C16":
+            # connection level: a fault (close of either side, context cancel, loss of the peer) at every step of every
+            # Conn.tla session, on the three rigs
+            connres = conn.run_conn(s, tier, tb, faults=True)
+            for x in connres["violations"]:
+                v.violation(x["sig"], x["detail"], x["replay"])
         if seq["drift"]:
             log("NOTE model drift: %d real traces differ from InFlightSeq but are accepted by InFlightAbs" % seq["drift"])
         unlisted = v.finish()
-        cov = dict(states=seq["states"], transitions=seq["transitions"],
-                   traces_validated_against_impl=seq["traces"],
-                   evaluations=seq["evaluations"], distinct_nontrivial=seq["distinct"],
+        extra_states = connres["states"] if connres else 0
+        extra_runs = connres["evaluations"] if connres else 0
+        cov = dict(states=seq["states"] + extra_states, transitions=seq["transitions"] + (connres["transitions"] if connres else 0),
+                   traces_validated_against_impl=seq["traces"] + extra_runs,
+                   evaluations=seq["evaluations"] + extra_runs, distinct_nontrivial=seq["distinct"] + (connres["distinct"] if connres else 0),
                    rule="sequential layer: every history of API calls up to the depth bound (TLC keeps the history in the state) and "
                         "random walks (-simulate) of InFlightSeq.tla are executed on the real handler inside synctest bubbles; after "
                         "every call the projection (free-id queue, table, per-request id/managed/pending/done/error class, call "
                         "result) is compared with the spec state; distinct = distinct history prefixes whose projection was compared; "
                         "runs that differ anywhere are judged by TLC against InFlightAbs (trace validation)",
-                   samples=seq["samples"][:3], runs=seq["runs"], model_drift=seq["drift"],
+                   samples=seq["samples"][:3] + (connres["samples"][:1] if connres else []), runs=seq["runs"], model_drift=seq["drift"],
+                   connection_level=(dict(states=connres["states"], sessions=connres["sessions"], replays=connres["evaluations"],
+                                          runs=connres["runs"],
+                                          rule="every prefix of every Conn.tla session followed by one fault (close-client, close-server, "
+                                               "cancel, drop) replayed on real connections for every version and compression: pending requests "
+                                               "closed with an error, blocked receivers return, later sends refused, Close returns (twice), "
+                                               "no goroutine survives") if connres else None),
                    known_findings=sorted(v.known_hits))
         write_evidence(prop, tier, "model_checking", cov, time.time() - t0, unlisted,
                        assumptions=["TLC 1.8.0", "Go runtime testing/synctest fake clock (go1.26.8)",
